@@ -1112,6 +1112,7 @@ fn pcf_map(schema: &Map<String, JsonValue>, defined_names: &mut HashSet<String>)
             || k == "doc"
             || k == "aliases"
             || k == "logicalType"
+            || k == "order"
         {
             continue;
         }
